@@ -206,10 +206,104 @@ fn jitter_script(p: &mut P, n: usize) -> Vec<u64> {
     v
 }
 
+// --- solved scripts: the first collection of a fresh generator (pool 0) is made to
+// produce a rare word (0, all ones, a zero half). The collected word is affine over
+// GF(2) in the delta bits while no measurement is stuck (same construction as
+// drive::solve_collection in the monitor library; duplicated because this binary is
+// built without it).
+fn m_fold(mut pool: u64, t: u64) -> u64 {
+    for i in 0..64 {
+        let mut lsb = (pool & 1) ^ ((t >> i) & 1);
+        for tap in [63u32, 60, 55, 30, 27, 22] { lsb ^= (pool >> tap) & 1; }
+        pool = ((pool & !1) | lsb).rotate_left(1);
+    }
+    pool
+}
+fn m_stir(pool: u64) -> u64 {
+    let c: u64 = 0x6745_2301_efcd_ab89;
+    let mut m: u64 = 0x98ba_dcfe_1032_5476;
+    for i in 0..64 { if (pool >> i) & 1 == 1 { m ^= c; } m = m.rotate_left(1); }
+    pool ^ m
+}
+/// (word, any stuck) of one collection from pool 0 over the deltas
+fn m_collect(deltas: &[u32]) -> (u64, bool) {
+    let (mut pool, mut d1, mut d2, mut any_stuck) = (0u64, 0i32, 0i32, false);
+    for (k, &d) in deltas.iter().enumerate() {
+        let d = d as i32;
+        pool = m_fold(pool, d as i64 as u64);
+        let e2 = d1.wrapping_sub(d);
+        let e3 = e2.wrapping_sub(d2);
+        d1 = d; d2 = e2;
+        let stuck = d == 0 || e2 == 0 || e3 == 0;
+        let _ = k; // (the priming measurement is mixed in like the others; only its verdict is ignored)
+        if stuck { any_stuck = true; } else { pool = pool.rotate_left(7); }
+    }
+    (m_stir(pool), any_stuck)
+}
+fn solved_script(p: &mut P, rounds: usize, want: u64, mask: u64) -> Option<Vec<u64>> {
+    let n = rounds + 1;
+    for _ in 0..12 {
+        let base: Vec<u32> = (0..n).map(|_| 1024 + p.below(1 << 21) as u32).collect();
+        let (w0, s0) = m_collect(&base);
+        if s0 { continue; }
+        let vars: Vec<(usize, u32)> = (0..n.min(4)).flat_map(|k| (0..31u32).map(move |b| (n - 1 - k, b))).collect();
+        let cols: Vec<u64> = vars.iter().map(|&(i, b)| { let mut d = base.clone(); d[i] ^= 1 << b; (m_collect(&d).0 ^ w0) & mask }).collect();
+        let rhs = (w0 ^ want) & mask;
+        let mut rows: Vec<(u128, bool)> = (0..64).map(|e| {
+            let mut m = 0u128;
+            for (v, c) in cols.iter().enumerate() { if (c >> e) & 1 == 1 { m |= 1u128 << v; } }
+            (m, (rhs >> e) & 1 == 1)
+        }).collect();
+        let mut piv: Vec<usize> = Vec::new();
+        for v in 0..vars.len() {
+            let rank = piv.len();
+            if rank == 64 { break; }
+            if let Some(pr) = (rank..64).find(|&r| (rows[r].0 >> v) & 1 == 1) {
+                rows.swap(rank, pr);
+                let pv = rows[rank];
+                for r in 0..64 { if r != rank && (rows[r].0 >> v) & 1 == 1 { rows[r].0 ^= pv.0; rows[r].1 ^= pv.1; } }
+                piv.push(v);
+            }
+        }
+        if rows[piv.len()..].iter().any(|r| r.0 == 0 && r.1) { continue; }
+        let mut x: u128 = 0;
+        for (r, &v) in piv.iter().enumerate() { if rows[r].1 { x |= 1u128 << v; } } // free variables = 0
+        let mut d = base.clone();
+        for (v, &(i, b)) in vars.iter().enumerate() { if (x >> v) & 1 == 1 { d[i] ^= 1 << b; } }
+        let (w, st) = m_collect(&d);
+        if st || d.iter().any(|&k| k == 0) || (w ^ want) & mask != 0 { continue; }
+        let mut t = 1_000_000u64 + p.below(1 << 30);
+        let mut v = vec![t];
+        for &k in &d { v.push(t + 1); t += k as u64; v.push(t); v.push(t + 2); }
+        return Some(v);
+    }
+    None
+}
+
 fn run_jitter(p: &mut P, sample: bool) -> (String, String, Vec<u64>) {
-    let with_tt = p.below(4) == 0;
+    let mut with_tt = p.below(4) == 0;
     let n_readings = if with_tt { 1800 } else { 40 + p.below(400) as usize };
-    let script = Arc::new(jitter_script(p, n_readings));
+    let mut script_v = jitter_script(p, n_readings);
+    // one case in eight: the first collection is solved to give 0 / all ones / a zero half
+    let mut forced_rounds: Option<u8> = None;
+    if p.below(8) == 0 {
+        let (want, mask) = [(0u64, u64::MAX), (u64::MAX, u64::MAX), (0, 0xffff_ffff_0000_0000), (0, 0xffff_ffff)][p.below(4) as usize];
+        let rr = 2 + p.below(2) as usize;
+        if let Some(v) = solved_script(p, rr, want, mask) {
+            if std::env::var_os("DIGEST_SELFTEST").is_some() {
+                // one-off self test of the duplicated model: real first word meets the target
+                let (s3, p3) = (std::sync::Arc::new(v.clone()), std::sync::Arc::new(AtomicUsize::new(0)));
+                let mut g = rand_jitter::JitterRng::new_with_timer(move || { let i = p3.fetch_add(1, Ordering::SeqCst); s3[i.min(s3.len() - 1)] });
+                g.set_rounds(rr as u8);
+                let w = g.next_u64();
+                eprintln!("selftest want={:016x} mask={:016x} got={:016x} {}", want, mask, w, if (w ^ want) & mask == 0 { "OK" } else { "MISMATCH" });
+            }
+            script_v = v;
+            forced_rounds = Some(rr as u8);
+            with_tt = false;
+        }
+    }
+    let script = Arc::new(script_v);
     let pos = Arc::new(AtomicUsize::new(0));
     let (s2, p2) = (script.clone(), pos.clone());
     let timer = move || {
@@ -225,6 +319,7 @@ fn run_jitter(p: &mut P, sample: bool) -> (String, String, Vec<u64>) {
     };
     let mut g = rand_jitter::JitterRng::new_with_timer(timer);
     let rounds = [1u8, 1, 2, 3, 8, 64][p.below(6) as usize];
+    let rounds = forced_rounds.unwrap_or(rounds);
     g.set_rounds(rounds);
     let mut h = H(0xcbf29ce484222325);
     let mut first = Vec::new();
